@@ -57,12 +57,24 @@ def c08_cases():
         'done_before': st.integers(0, 3),
         'action': st.sampled_from(['terminate', 'terminate', 'terminate2',
                                    'del_pool', 'terminate_job', 'sigterm']),
+        # several idle workers are told to exit shortly before the call, so that
+        # the supervisor is busy replacing them (with a slow on_process_up
+        # callback) when terminate() arrives
+        'mass': st.sampled_from([0, 0, 2, 3, 3]),
+        'gap': st.sampled_from([0.5, 0.9, 0.9, 1.2]),
     })
 
 
 def execute_c08(case):
     procs = case['procs']
     threads = case['threads']
+    if case.get('mass') and threads:
+        # replacing `mass` workers with a 0.5 s on_process_up callback keeps the
+        # supervisor inside its replacement loop for mass x 0.5 s; it notices the
+        # exits within one 0.8 s period, so a call 0.9 s after the kills lands
+        # between two of its forks
+        procs = max(procs, case['mass'] + 1)
+        case = dict(case, running=case['running'][:1])
     steps = []
     done = ['d%d' % i for i in range(case['done_before'])] if threads else []
     for t in done:
@@ -88,6 +100,9 @@ def execute_c08(case):
     # let freshly started workers reach their idle state (blocked in the read of
     # the task queue, holding its read lock)
     steps.append(['sleep', 0.6])
+    mass = case.get('mass', 0) if threads else 0
+    if mass:
+        steps += [['kill_idle_n', mass, 15], ['sleep', case.get('gap', 0.7)]]
     steps.append(['snapshot', 'before'])
     if action == 'terminate':
         steps.append(['terminate'])
@@ -101,10 +116,13 @@ def execute_c08(case):
     elif action == 'sigterm':
         steps += [['sigterm_worker', 'r0'], ['sleep', 6.0], ['snapshot', 'after'],
                   ['terminate']]
-    scen = {'pool': {'procs': procs, 'threads': threads, 'lost': 0.5},
+    scen = {'pool': {'procs': procs, 'threads': threads, 'lost': 0.5,
+                     'slow_up': 0.5 if mass else 0},
             'steps': steps, 'watch': 75, 'settle': 2.5}
     obs = run_scenario(scen)
     labels = ['action=' + action, 'threads=%s' % threads]
+    if mass:
+        labels.append('supervisor_replacing')
     nontrivial = bool(running)
     if running:
         labels.append('worker_in_task')
@@ -195,6 +213,7 @@ def c07_cases():
         'maxtasks': st.sampled_from([None, None, 200]),
         'jobs': st.lists(_JOB.map(list), min_size=0, max_size=10),
         'close_after': st.sampled_from([0, 0, 0.05, 0.3, 'all']),
+        'replace': st.booleans(),
     })
 
 
@@ -203,6 +222,10 @@ def execute_c07(case):
     steps = []
     expect = {}
     work = 0.0
+    if case.get('replace') and threads:
+        # a worker is killed while idle and replaced before any job is offered
+        steps += [['sleep', 0.3], ['kill_idle', 9], ['sleep', 0.2],
+                  ['wait_size', case['procs'], 20]]
     for i, j in enumerate(case['jobs']):
         tag = 'j%d' % i
         if j[0] == 'apply' or not threads:
@@ -645,6 +668,9 @@ def c02_cases():
         'bad': st.lists(st.integers(0, 13), max_size=3, unique=True),
         'exc': st.sampled_from(['ValueError', 'KeyError', 'CustomError',
                                 'OSError']),
+        # a job the same pool has served before (the feeder/handlers are loops
+        # that live across jobs)
+        'pre': st.sampled_from([None, 'apply', 'map', 'imap']),
     })
 
 
@@ -653,6 +679,13 @@ def execute_c02(case):
     badset = [b for b in case['bad'] if b < n]
     script = [['raise_if', badset, case['exc']], ['retx', 5]]
     steps = []
+    pre = case.get('pre')
+    if pre == 'apply':
+        steps += [['apply', 'p', [['ret', 1]], {}], ['wait', 'p', 60]]
+    elif pre == 'map':
+        steps += [['map', 'p', [['retx', 0]], 7, 2, 'map'], ['wait', 'p', 60]]
+    elif pre == 'imap':
+        steps += [['map', 'p', [['retx', 0]], 3, 1, 'imap'], ['drain', 'p', 60]]
     if entry == 'apply':
         x_bad = bool(badset)
         steps.append(['apply_sync', 'j', [['raise', case['exc'], [1, 'boom']]]
